@@ -14,9 +14,9 @@ for n in 1 2 3; do
   pkgs=$(go list ./... | grep -v /out)
   if go test -vet=off -count=1 $pkgs >/tmp/confirm-$p-$n.log 2>&1; then echo "suite: PASS with mutation"; else echo "suite: FAIL with mutation"; fi
   cp out/demo${n}_test.go $pkg/zz_demo_test.go
-  if go test -vet=off -count=1 ./$pkg -run 'Demo' >/tmp/confirm-$p-$n-demo.log 2>&1; then echo "demo with mutation: PASS (unexpected)"; else echo "demo with mutation: FAIL (expected)"; fi
+  if go test -vet=off -count=1 ./$pkg -run 'Demo|TestC[0-9][0-9]' >/tmp/confirm-$p-$n-demo.log 2>&1; then echo "demo with mutation: PASS (unexpected)"; else echo "demo with mutation: FAIL (expected)"; fi
   git checkout -q -- .
-  if go test -vet=off -count=1 ./$pkg -run 'Demo' >/tmp/confirm-$p-$n-demo0.log 2>&1; then echo "demo without mutation: PASS (expected)"; else echo "demo without mutation: FAIL (unexpected)"; fi
+  if go test -vet=off -count=1 ./$pkg -run 'Demo|TestC[0-9][0-9]' >/tmp/confirm-$p-$n-demo0.log 2>&1; then echo "demo without mutation: PASS (expected)"; else echo "demo without mutation: FAIL (unexpected)"; fi
   rm -f $pkg/zz_demo_test.go
   git -C /repo apply $w/out/patch$n.diff || { echo "APPLY to /repo FAILED"; continue; }
   /verif/check $p --tier quick -noselftest 2>&1 | grep -E "^VIOLATION|^  harness|^property=|^ERROR|^INCOMPLETE|^SPURIOUS" | head -6 | cut -c1-220
